@@ -323,8 +323,24 @@ class FuncGen:
             a1 = ("mem", "i64", off1, "tal", None, 1, f"w{off1}")
             u1 = ("mem", "i64", off1, "tal", None, 1)
             a2 = ("mem", "i64", off2, "tal", None, 1, f"w{off2}")
-            form = r.below(4)
+            form = r.below(5)
             self.emit("mov", a1, self.isrc())
+            if form == 4:
+                # the word is reused under another name (as C storage changing its effective type), then read
+                # without annotation; an unannotated store closes the episode so later named accesses are exact
+                offo = (off1 + 8 * (1 + r.below(7))) % 64
+                self.emit("mov", ("mem", "i64", offo, "tal", None, 1), self.isrc())   # the named load is a real load
+                self.emit("mov", "t0", a1)
+                if r.chance(1, 2):
+                    self.emit("mov", ("mem", "i64", off1, "tal", None, 1, f"v{off1}"), self.isrc())
+                else:                                                                # two halves under the new name
+                    self.emit("mov", ("mem", "i32", off1, "tal", None, 1, f"v{off1}"), self.isrc())
+                    self.emit("mov", ("mem", "i32", off1 + 4, "tal", None, 1, f"v{off1}"), self.isrc())
+                self.emit("mov", d, u1)
+                self.emit("add", d, d, "t0")
+                self.emit("mov", u1, d)
+                self.stat("alias_reuse")
+                return
             if form == 0:      # annotated store, unannotated store to the same word, annotated reload
                 self.emit("mov", u1, self.isrc())
             elif form == 1:    # unannotated then annotated
